@@ -16,6 +16,7 @@ import torch
 import pytorch_wavelets as pw
 from pytorch_wavelets import _verif
 from pytorch_wavelets.dtcwt import coeffs
+from pytorch_wavelets.dwt.transform2d import SWTForward
 
 TD = {"f32": torch.float32, "f64": torch.float64}
 
@@ -70,6 +71,13 @@ def _pyr_dwt(shape, dt, seed):
     return (torch.randn(*yl.shape, generator=g, dtype=torch.float64).to(dt), [torch.randn(*h.shape, generator=g, dtype=torch.float64).to(dt) for h in yh])
 
 
+def _pyr_dwt1(shape, dt, seed):
+    g = torch.Generator().manual_seed(seed)
+    x = torch.randn(*shape, generator=g, dtype=torch.float64)
+    yl, yh = pw.DWT1DForward(J=2, wave="db3", mode="periodization").double()(x)
+    return (torch.randn(*yl.shape, generator=g, dtype=torch.float64).to(dt), [torch.randn(*h.shape, generator=g, dtype=torch.float64).to(dt) for h in yh])
+
+
 def _pyr_dtcwt(shape, dt, seed):
     g = torch.Generator().manual_seed(seed)
     x = torch.randn(*shape, generator=g, dtype=torch.float64)
@@ -116,6 +124,13 @@ POOL = {
                   3: lambda dt: _rand((1, 1, 17, 20), dt, 13)}),
     9: dict(name="DWT1DForward(J=2,db3,symmetric)", make=lambda: pw.DWT1DForward(J=2, wave="db3", mode="symmetric"),
             args={1: lambda dt: _rand((2, 2, 17), dt, 31), 2: lambda dt: _rand((1, 3, 8), dt, 32), 3: lambda dt: _rand((1, 1, 25), dt, 33)}),
+    8: dict(name="ScatLayerj2(near_sym_b_bp)", make=lambda: pw.ScatLayerj2(biort="near_sym_b_bp", qshift="qshift_b_bp"),
+            args={1: lambda dt: _rand((1, 2, 8, 8), dt, 81), 2: lambda dt: _rand((2, 1, 9, 12), dt, 82), 3: lambda dt: _rand((1, 1, 16, 16), dt, 83)}),
+    13: dict(name="SWTForward(J=2,db2)", make=lambda: SWTForward(J=2, wave="db2"),
+             args={1: lambda dt: _rand((1, 2, 8, 12), dt, 131), 2: lambda dt: _rand((2, 1, 8, 8), dt, 132), 3: lambda dt: _rand((1, 1, 16, 20), dt, 133)}),
+    15: dict(name="DWT1DInverse(db3,periodization)", make=lambda: pw.DWT1DInverse(wave="db3", mode="periodization"),
+             args={1: lambda dt: _pyr_dwt1((2, 2, 18), dt, 151), 2: lambda dt: _with_absent(_pyr_dwt1((1, 3, 8), dt, 152), 1, "none"),
+                   3: lambda dt: _pyr_dwt1((1, 1, 26), dt, 153)}),
     11: dict(name="DWT1DForward(J=2,sym3,periodic)", make=lambda: pw.DWT1DForward(J=2, wave="sym3", mode="periodic"),
              args={1: lambda dt: _rand((2, 2, 17), dt, 31), 2: lambda dt: _rand((1, 3, 8), dt, 32), 3: lambda dt: _rand((1, 1, 25), dt, 33)}),
 }
